@@ -712,3 +712,30 @@ def guard_stack(root, target):
         return False
     block(root.body, [])
     return found.get('ns')
+
+
+
+def loop_leaves_early(loop):
+    """does the loop body contain a `break` of this loop or a `return`: then the loop is not a
+    plain map/filter over its iterable (later elements can be dropped)"""
+    def rec(stmts, own):
+        for st in stmts:
+            if isinstance(st, ast.Return):
+                return True
+            if isinstance(st, ast.Break) and own:
+                return True
+            if isinstance(st, (ast.FunctionDef, ast.AsyncFunctionDef, ast.ClassDef)):
+                continue
+            if isinstance(st, (ast.For, ast.AsyncFor, ast.While)):
+                if rec(st.body, False) or rec(st.orelse, own):
+                    return True
+                continue
+            for field in ('body', 'orelse', 'finalbody'):
+                sub = getattr(st, field, None)
+                if isinstance(sub, list) and rec(sub, own):
+                    return True
+            for h in getattr(st, 'handlers', []) or []:
+                if rec(h.body, own):
+                    return True
+        return False
+    return rec(loop.body, True)
